@@ -128,7 +128,13 @@ fn gen_structured(out: &mut Out, rng: &mut Rng, thorough: bool, prop: &str) {
             mask: if rng.chance(4, 5) { None } else { Some(rng.below(8)) },
         };
         match prop {
-            "C01" | "C02" | "C03" | "C04" | "C06" | "C07" | "C10" | "C15" => out.job(move || build_line(&inp, o)),
+            "C01" | "C02" | "C03" | "C04" | "C06" | "C07" | "C10" | "C15" => {
+                if k % 10 == 9 {
+                    out.job(move || buildafterx_line(&inp, o))
+                } else {
+                    out.job(move || build_line(&inp, o))
+                }
+            }
             "C05" => {
                 let e = o.ecl;
                 out.job(move || buildc_line(&inp, e))
@@ -677,6 +683,35 @@ pub fn buildafter_line(input: &[u8], o: Opts, vbig: usize) -> String {
     )
 }
 
+/// `buildafterx <hex> e m v k => …` : `build` on a thread on which an earlier build PANICKED and was caught (a forced mode
+/// whose alphabet does not contain the input panics by contract; servers and thread pools survive that and carry on)
+pub fn buildafterx_line(input: &[u8], o: Opts) -> String {
+    let inp = input.to_vec();
+    let r = std::thread::spawn(move || {
+        let _ = build(b"0123x", Opts { ecl: None, mode: Some(0), version: None, mask: None });
+        let _ = build(b"hello, lowercase", Opts { ecl: Some(0), mode: Some(1), version: None, mask: None });
+        build(&inp, o)
+    })
+    .join();
+    let res = match r {
+        Ok(x) => outcome_full(&x),
+        Err(_) => "trap thread".to_string(),
+    };
+    format!("buildafterx {} {} {} {} {} => {}", hex(input), opt(o.ecl), opt(o.mode), opt(o.version), opt(o.mask), res)
+}
+
+/// a HAND-ASSEMBLED copy of a symbol: `QRCode::default(size)` filled through `qr[y][x] = dark.into()` — what a program
+/// importing a matrix from elsewhere makes; it has no version / level / mask and every module is typed `Empty`
+pub fn hand_copy(q: &fast_qr::QRCode) -> fast_qr::QRCode {
+    let mut t = fast_qr::QRCode::default(q.size);
+    for y in 0..q.size {
+        for x in 0..q.size {
+            t[y][x] = q[y][x].value().into();
+        }
+    }
+    t
+}
+
 fn gen_geometry(out: &mut Out, rng: &mut Rng, thorough: bool) {
     let caps = caps();
     for v in 0..40usize {
@@ -1217,11 +1252,47 @@ fn gen_c11(out: &mut Out, rng: &mut Rng, thorough: bool) {
 // ---------------------------------------------------------------------------------------------
 // C16: terminal rendering of real symbols of all 40 sizes.
 pub fn term_line(input: &[u8], o: Opts) -> String {
+    term_line_x(input, o, false)
+}
+/// `termt …` : `to_str()` of a hand-assembled copy of the symbol
+pub fn termt_line(input: &[u8], o: Opts) -> String {
+    term_line_x(input, o, true)
+}
+/// `termp …` : what `print()` writes to standard output (captured from a child process), without its final newline
+pub fn termp_line(input: &[u8], o: Opts) -> String {
     let r = build(input, o);
-    let head = format!("term {} {} {} {} {} => ", hex(input), opt(o.ecl), opt(o.mode), opt(o.version), opt(o.mask));
+    let head = format!("termp {} {} {} {} {} => ", hex(input), opt(o.ecl), opt(o.mode), opt(o.version), opt(o.mask));
     match &r {
         Outcome::Ok(q) => {
-            let q2 = q.clone();
+            let exe = std::env::current_exe().unwrap();
+            let out = std::process::Command::new(exe)
+                .args(["print-child", &hex(input), &opt(o.ecl), &opt(o.mode), &opt(o.version), &opt(o.mask)])
+                .output();
+            match out {
+                Ok(x) if x.status.success() => {
+                    let mut b = x.stdout;
+                    if b.last() == Some(&b'\n') {
+                        b.pop();
+                    }
+                    format!("{}ok {} {} {}", head, q.size, matrix_hex(q), hex(&b))
+                }
+                _ => format!("{}trap", head),
+            }
+        }
+        _ => format!("{}nobuild {}", head, outcome_short(&r)),
+    }
+}
+pub fn print_child(input: &[u8], o: Opts) {
+    if let Outcome::Ok(q) = build(input, o) {
+        q.print();
+    }
+}
+fn term_line_x(input: &[u8], o: Opts, twin: bool) -> String {
+    let r = build(input, o);
+    let head = format!("{} {} {} {} {} {} => ", if twin { "termt" } else { "term" }, hex(input), opt(o.ecl), opt(o.mode), opt(o.version), opt(o.mask));
+    match &r {
+        Outcome::Ok(q) => {
+            let q2 = if twin { hand_copy(q) } else { (**q).clone() };
             match std::panic::catch_unwind(move || q2.to_str()) {
                 Ok(s) => format!("{}ok {} {} {}", head, q.size, matrix_hex(q), hex(s.as_bytes())),
                 Err(_) => format!("{}trap", head),
@@ -1266,7 +1337,18 @@ fn gen_c16(out: &mut Out, rng: &mut Rng, thorough: bool) {
         let inp = content(rng, md, len);
         let o = Opts { ecl: Some(e), mode: Some(md), version: Some(v), mask: None };
         let v2 = (v + 1 + rng.below(39)) % 40;
+        let (i2, i3) = (inp.clone(), inp.clone());
         out.job(move || termx_line(&inp, o, v2));
+        out.job(move || termt_line(&i2, o));
+        if v % 8 == 0 || v == 39 || thorough {
+            out.job(move || termp_line(&i3, o));
+        }
+    }
+    {
+        // the largest symbol fills the backing array completely: no spare row after the last one
+        let inp = content(rng, 2, caps[2][0][39]);
+        let o = Opts { ecl: Some(0), mode: Some(2), version: Some(39), mask: None };
+        out.job(move || termp_line(&inp, o));
     }
     // sizes in a scrambled order: every worker thread renders larger and smaller symbols alternately, so
     // state carried from one render to the next would show
@@ -1292,14 +1374,21 @@ fn gen_c16(out: &mut Out, rng: &mut Rng, thorough: bool) {
 use crate::svgops::{self, Op};
 
 pub fn svg_line(input: &[u8], o: Opts, ops: &[Op]) -> String {
+    svg_line_x(input, o, ops, false)
+}
+/// `svgt …` : the same rendering of a HAND-ASSEMBLED copy of the symbol (must be the same document)
+pub fn svgt_line(input: &[u8], o: Opts, ops: &[Op]) -> String {
+    svg_line_x(input, o, ops, true)
+}
+fn svg_line_x(input: &[u8], o: Opts, ops: &[Op], twin: bool) -> String {
     let r = build(input, o);
     let head = format!(
-        "svg {} {} {} {} {} {} => ",
-        hex(input), opt(o.ecl), opt(o.mode), opt(o.version), opt(o.mask), svgops::toks(ops)
+        "{} {} {} {} {} {} {} => ",
+        if twin { "svgt" } else { "svg" }, hex(input), opt(o.ecl), opt(o.mode), opt(o.version), opt(o.mask), svgops::toks(ops)
     );
     match &r {
         Outcome::Ok(q) => {
-            let (q2, ops2) = (q.clone(), ops.to_vec());
+            let (q2, ops2) = (if twin { hand_copy(q) } else { (**q).clone() }, ops.to_vec());
             match std::panic::catch_unwind(move || svgops::svg_of(&ops2, &q2)) {
                 Ok(s) => format!("{}ok {} {} {} {}", head, q.size, matrix_hex(q), hex(s.as_bytes()), xml_view(&s)),
                 Err(e) => format!("{}trap {}", head, panic_msg(e)),
@@ -1377,6 +1466,24 @@ fn gen_c12(out: &mut Out, rng: &mut Rng, thorough: bool) {
             let x = ops.remove(i);
             ops.push(x);
         }
+        if k % 8 == 7 {
+            out.job(move || svgt_line(&inp, o, &ops));
+        } else {
+            out.job(move || svg_line(&inp, o, &ops));
+        }
+    }
+    // embedded images as programs really pass them: a whole file inlined as a data URI, kilobytes long, either base64
+    // or un-encoded SVG text full of quotes, angle brackets and ampersands
+    for k in 0..(if thorough { 40 } else { 6 }) {
+        let vv = rng.below(4);
+        let (inp, o) = small_symbol(rng, &caps, vv);
+        let body = if k % 2 == 0 {
+            let unit = "<rect x=\"1\" y='2' width=\"3\" height=\"4\" fill=\"#a&b\"/><!-- é -->";
+            format!("data:image/svg+xml;utf8,<svg xmlns=\"http://www.w3.org/2000/svg\">{}</svg>", unit.repeat(20 + rng.below(200)))
+        } else {
+            format!("data:image/png;base64,{}", "iVBORw0KGgoAAAANSUhEUgAA+/9=".repeat(50 + rng.below(400)))
+        };
+        let ops = vec![Op::Margin(rng.below(5)), Op::Image(body)];
         out.job(move || svg_line(&inp, o, &ops));
     }
 }
@@ -1431,6 +1538,16 @@ fn gen_c18(out: &mut Out, rng: &mut Rng, thorough: bool) {
                 ops.swap(i, rng.below(i + 1));
             }
         }
-        out.job(move || svg_line(&inp, o, &ops));
+        if rng.chance(1, 10) {
+            out.job(move || svgt_line(&inp, o, &ops));
+        } else {
+            out.job(move || svg_line(&inp, o, &ops));
+        }
+    }
+    // a hand-assembled copy of a symbol of every size gets the same default frame
+    for v in 0..40usize {
+        let (inp, o) = small_symbol(rng, &caps, v);
+        let ops = vec![Op::Margin(rng.below(6)), Op::ImageBgShape(rng.below(3)), Op::Image("x.png".to_string())];
+        out.job(move || svgt_line(&inp, o, &ops));
     }
 }
